@@ -260,13 +260,18 @@ class ConsensusRun(object):
                 here = ch.chance(1, 4, 'join')
             if here:
                 present.append(r)
-        if not present:
+        empty_ok = prev is not None and not any(pinned(r) for r in self.pool)
+        if empty_ok and ch.chance(1, 14, 'emptydoc'):
+            # a replacement document without a single router entry (legal per the control-spec grammar)
+            present = []
+            sim.probe('empty-document')
+        elif not present:
             for r in self.pool:
                 if not r.must_leave:
                     present.append(r)
                     break
-        if not present:
-            raise HarnessError('no relay may be listed in document %d' % k)
+            if not present:
+                raise HarnessError('no relay may be listed in document %d' % k)
         for r in self.pool:
             r.must_leave = False
 
@@ -776,6 +781,13 @@ class ConsensusRun(object):
                     tag, hx, 'raises KeyError' if got is KeyError else 'is not the relay of routers_by_hash'))
             if st.router_from_id(hx) is not objs[hx]:
                 sim.fail('C16.lookup-by-identity-fails', '%s: router_from_id(%r) is not the listed relay' % (tag, hx))
+            # the LongName spellings Tor uses in events: $FP~nick and (older Tors, Named relays) $FP=nick
+            for sep in '~=':
+                ln = hx + sep + exp[hx].nick
+                if st.router_from_id(ln) is not objs[hx]:
+                    sim.fail('C16.lookup-by-identity-fails-longname', '%s: router_from_id(%r) is not the listed relay' % (tag, ln))
+            if st.routers.get(hx) is not objs[hx]:
+                sim.fail('C16.lookup-by-identity-fails-longname', '%s: after LongName lookups routers[%r] is no longer the listed relay' % (tag, hx))
         nick_objs = {}
         for hx, e in exp.items():
             nick_objs.setdefault(e.nick, []).append(objs[hx])
